@@ -108,6 +108,53 @@ def gen_device(rng, kind=None):
     return d
 
 
+def gen_shared(rng, si):
+    import agen
+    k = rng.choice([2, 3, 4])
+    if si % 4 == 3:      # keyboards of one model
+        d0 = gen_device(rng, "led")
+        devs = []
+        for _ in range(k):
+            d = dict(d0)
+            d["events"] = devgen.gen_history(rng, d0["cfg"], rng.randint(6, 30), p_action=0.3, avoid_exit=True, repeats=False)
+            d["close_us"] = rng.randrange(0, 25000)
+            devs.append(d)
+        return {"devices": devs, "share_cfg": True, "tag": "shared-config-keyboards"}
+    axes = [agen.ABS_X, agen.ABS_Y, agen.ABS_Z, agen.ABS_RX, agen.ABS_RY, agen.ABS_RZ]
+    analogs = [agen.analog(agen.ABS_X, "cc", cc=20, ccneg=21, bidi=True), agen.analog(agen.ABS_Y, "cc", cc=22, ccneg=23, bidi=True, flip=True),
+               agen.analog(agen.ABS_Z, "cc", cc=24), agen.analog(agen.ABS_RX, "pitch_bend"), agen.analog(agen.ABS_RY, "key", note=60, noteneg=62, bidi=True),
+               agen.analog(agen.ABS_RZ, "cc", cc=25, off=1)]
+    keys = [{"sub": "", "code": 304 + i, "note": 36 + i, "off": 0} for i in range(6)]
+    # explicit dead zones for two of the axes only; the others resolve through the mapping's default
+    cfg = agen.base_cfg(analogs, dz=[{"sub": "", "code": agen.ABS_Z, "bits": str(agen.bits(0.0))}, {"sub": "", "code": agen.ABS_RZ, "bits": str(agen.bits(0.2))}],
+                        defdz=[{"sub": "", "bits": str(agen.bits(rng.choice([0.0, 0.1, 0.25])))}], keys=keys, cmode="interrupt", n_maps=2,
+                        actions=[{"code": 314, "action": "mapping_up"}, {"code": 315, "action": "mapping_down"}, {"code": 316, "action": "octave_up"}],
+                        channel=rng.choice([1, 5]))
+    cfg["colors"] = c17.gen_colours(rng)
+    absl = [{"code": c, "min": -32768, "max": 32767} for c in axes[:2] + axes[3:5]] + [{"code": c, "min": 0, "max": 255} for c in (agen.ABS_Z, agen.ABS_RZ)]
+    rngs = {a["code"]: (a["min"], a["max"]) for a in absl}
+    devs = []
+    for di in range(k):
+        ev = []
+        order = list(axes)
+        rng.shuffle(order)
+        for rnd in range(rng.randint(2, 5)):
+            for c in order:
+                mn, mx = rngs[c]
+                ev.append({"t": "a", "sub": "", "code": c, "val": rng.choice([mn, mx, (mn + mx) // 2, rng.randint(mn, mx)])})
+            if rng.random() < 0.6:
+                kc = rng.choice(keys)["code"]
+                ev += [{"t": "k", "sub": "", "code": kc, "val": 1}, {"t": "k", "sub": "", "code": kc, "val": 0}]
+            if rng.random() < 0.4:
+                ev += [{"t": "k", "sub": "", "code": 314, "val": 1}, {"t": "k", "sub": "", "code": 314, "val": 0}]
+        for c in axes:      # back to rest, so that the comparison with the stand-alone model run ends in a quiet state
+            mn, mx = rngs[c]
+            ev.append({"t": "a", "sub": "", "code": c, "val": 0 if mn < 0 else mn})
+        devs.append({"cfg": cfg, "abs": absl, "events": ev, "leds": [], "close_us": rng.randrange(0, 25000), "early_ms": rng.choice([0, 0, 5]),
+                     "no_server": True, "midi_stream": rng.random() < 0.5})
+    return {"devices": devs, "share_cfg": True, "tag": "shared-config-gamepads"}
+
+
 def gen(rng, tier):
     n = 48 if tier == "quick" else 2000
     scenarios = []
@@ -165,6 +212,11 @@ def gen(rng, tier):
                     ev += [{"t": "k", "sub": "", "code": act["mapping_down"], "val": 1}, {"t": "k", "sub": "", "code": act["mapping_down"], "val": 0}]
             d.update({"cfg": cfg, "events": ev, "leds": c17.gen_layout(rng, cfg), "close_us": 15000})
         scenarios.append({"devices": [d], "tag": "corpus-stale-release"})
+    # several devices built from ONE configuration value (what the manager does for every device that resolves to the same entry of the
+    # loaded configurations: two pads on the default gamepad configuration, two keyboards of one model): the copies share their maps.
+    # Gamepads sweeping axes with and without an explicit dead zone, keys in between; keyboards with the LED loop running
+    for si in range(4 if tier == "quick" else 60):
+        scenarios.append(gen_shared(rng, si))
     while len(scenarios) < n:
         k = rng.choice([1, 1, 2, 2, 3, 4, 6, 8])
         scenarios.append({"devices": [gen_device(rng) for _ in range(k)], "tag": "random"})
@@ -205,7 +257,7 @@ def run(run_, scenarios=None, repeat=1):
     if scenarios is None:
         scenarios = gen(rng, run_.tier)
     scenarios = [s for s in scenarios for _ in range(repeat)]
-    wire = [{"devices": s["devices"]} for s in scenarios]
+    wire = [{"devices": s["devices"], "share_cfg": bool(s.get("share_cfg"))} for s in scenarios]
     results, races, err = run_all(binary, wire, procs=4 if run_.tier == "quick" else 6)
     if results is None:
         run_.violation("lifecycle harness failed: " + err, {"theorem_or_correspondence": dyn + " (harness run)", "error": err}, no_input=True)
@@ -216,7 +268,7 @@ def run(run_, scenarios=None, repeat=1):
         n_viol[kind] += 1
         if n_viol[kind] > 2:
             return
-        run_.violation(what, dict({"kind": "lifecycle-scenario", "scenario": {"devices": scenarios[si]["devices"]}, "failure": kind,
+        run_.violation(what, dict({"kind": "lifecycle-scenario", "scenario": {"devices": scenarios[si]["devices"], "share_cfg": bool(scenarios[si].get("share_cfg"))}, "failure": kind,
                                    "note": "schedule-dependent: the replay runs the scenario 12 times under the race detector"}, **extra),
                        signature=sig)
 
@@ -229,6 +281,7 @@ def run(run_, scenarios=None, repeat=1):
                 si, len(scenarios[si]["devices"]), " / ".join(fn)), si, {"race_report": first}, sig=race_signature(first))
     # 2. termination, leftovers
     kcases, kres, kmap = [], [], []
+    acases, ares, amap = [], [], []
     ret_ms, frames = [], []
     skipped = sum(1 for res in results if res.get("skipped"))
     for si, res in enumerate(results):
@@ -249,6 +302,11 @@ def run(run_, scenarios=None, repeat=1):
             if dr["return_ms"] > RETURN_BOUND_MS and confirmed_slow(binary, wire[si]):
                 report("slow", "ProcessEvents returned %.0f ms after the end of the event stream (bound %d ms; scenario %d device %d)" % (
                     dr["return_ms"], RETURN_BOUND_MS, si, di), si, {"device": di, "observation": dr})
+            if dev.get("abs"):
+                acases.append({"cfg": dev["cfg"], "abs": dev["abs"], "events": dev["events"]})
+                ares.append({"steps": dr["steps"], "cleanup": dr["cleanup"]})
+                amap.append((si, di))
+                continue
             kcases.append({"cfg": dev["cfg"], "events": dev["events"]})
             kres.append({"steps": dr["steps"], "cleanup": dr["cleanup"]})
             kmap.append((si, di))
@@ -257,8 +315,14 @@ def run(run_, scenarios=None, repeat=1):
                 len(res["leftover"]), si, res["leftover"][0].split("\n")[0:3]), si, {"goroutines": res["leftover"][:4]})
     # 3. cross-talk: each device against the model's stand-alone run
     mres = devrun.eval_shards(kcases, kres, [("MIS", "enum_some full_mismatch 0 cases")], shard=max(20, -(-len(kcases) // 8)), tag="c16")
-    for it in mres["MIS"][:3]:
-        si, di = kmap[it[0]]
+    mis = [(kmap[it[0]], it[1]) for it in mres["MIS"]]
+    if acases:
+        import agen
+        ares_ = devrun.eval_shards(acases, ares, [("MIS", "enum_some (fun k => afull_mismatch_perm k) 0 cases")], imports="Model.AnalogF Model.AnalogSpec Run.AnalogRun",
+                                   shard=max(3, -(-len(acases) // 8)), emit=agen.emit_acase, case_type="acase", tag="c16a")
+        mis += [(amap[it[0]], it[1]) for it in ares_["MIS"]]
+    for (si, di), step_ in mis[:3]:
+        it = (None, step_)
         alone = len(scenarios[si]["devices"]) == 1
         report("crosstalk", "device %d of scenario %d (%d devices running concurrently) differs from the device model's stand-alone run on its own history at "
                "event %s%s" % (di, si, len(scenarios[si]["devices"]), it[1], " - the only device of its scenario: either state survives from the devices of earlier scenarios of the same process (package-level state), or the device model itself disagrees with the implementation" if alone else
@@ -296,7 +360,7 @@ def run(run_, scenarios=None, repeat=1):
                                    "led_frames_total": sum(frames), "events_total": sum(len(d["events"]) for s, d, r in devs)},
         "return_ms_max": round(max(ret_ms), 2) if ret_ms else None, "return_ms_mean": round(sum(ret_ms) / len(ret_ms), 2) if ret_ms else None,
         "return_bound_ms": RETURN_BOUND_MS, "race_reports": n_viol["race"], "leftover_goroutine_reports": n_viol["leftover"],
-        "crosstalk_mismatches": len(mres["MIS"]), "scenarios_skipped_after_hangs": skipped, "devices_compared_with_model": len(kcases),
+        "crosstalk_mismatches": len(mis), "scenarios_skipped_after_hangs": skipped, "devices_compared_with_model": len(kcases) + len(acases),
         "correspondence_obligations": 4,
         "correspondence_discharged": 4 - sum(1 for kk in ("race", "slow", "leftover", "crosstalk") if n_viol[kk]),
         "level_note": "partial by nature: goroutine structure and access table of Model/Lifecycle.v are hand-transcribed; real memory races and the Go "
